@@ -845,10 +845,12 @@ namespace arena
     static guarded<STORE> g_store_g;
     static guarded<192>   g_small_store_g;
     static guarded<4096>  g_big_store_g;
+    static guarded<128>   g_block_store_g; // exactly one block of the nearly-full memory_stack
     static_assert(offsetof(guarded<192>, st) == GUARD && offsetof(guarded<192>, post) == GUARD + 192, "guard layout");
     static fm::static_allocator_storage<STORE>& g_store       = g_store_g.st;
     static fm::static_allocator_storage<192>&   g_small_store = g_small_store_g.st;
     static fm::static_allocator_storage<4096>&  g_big_store   = g_big_store_g.st;
+    static fm::static_allocator_storage<128>&   g_block_store = g_block_store_g.st;
 
     inline u8 pat(std::size_t off)
     {
@@ -880,7 +882,7 @@ namespace arena
             n    = sz;
             exp.assign(sz, 0);
             lives.clear();
-            v      = verdict();
+            clear_verdicts();
             report = false;
             new_bytes = freed_bytes = live_bytes = allocs = alloc_failed = frees = discards = 0;
         }
@@ -888,14 +890,24 @@ namespace arena
         {
             return p >= base && p + sz <= base + n;
         }
+        std::vector<verdict> all; // one entry per distinct tag, v is the first
         void fail(const char* tag, const std::string& d, bool hp = false)
         {
+            for (auto& x : all)
+                if (std::string(x.tag) == tag)
+                    return;
+            verdict nv;
+            nv.tag             = tag;
+            nv.detail          = d;
+            nv.harness_problem = hp;
+            all.push_back(nv);
             if (!v.bad())
-            {
-                v.tag             = tag;
-                v.detail          = d;
-                v.harness_problem = hp;
-            }
+                v = nv;
+        }
+        void clear_verdicts()
+        {
+            v = verdict();
+            all.clear();
         }
         // footprint: bytes of pool nodes the allocation occupies (>= sz); expectations about them end here
         void on_alloc(void* mem, std::size_t sz, int what, std::size_t count, std::size_t esize, int iter = 0,
@@ -1606,11 +1618,11 @@ namespace arena
         }
         u8* store() override
         {
-            return is_vm ? static_cast<u8*>(h.a->arena_.current_block().memory) : reinterpret_cast<u8*>(&g_store);
+            return is_vm ? static_cast<u8*>(h.a->arena_.current_block().memory) : reinterpret_cast<u8*>(&g_block_store);
         }
         std::size_t store_size() override
         {
-            return is_vm ? h.a->arena_.current_block().size : STORE;
+            return is_vm ? h.a->arena_.current_block().size : 128;
         }
         void prepare() override
         {
@@ -1643,7 +1655,7 @@ namespace arena
         }
         void construct_impl(std::false_type)
         {
-            h.a = ::new (h.raw) obj(std::size_t(128), g_store);
+            h.a = ::new (h.raw) obj(std::size_t(128), g_block_store); // a second block does not exist: allocate() throws
         }
         void destroy() override
         {
@@ -1791,7 +1803,7 @@ namespace arena
                 {
                     sh.report = i + 1 == seq.size();
                     if (sh.report)
-                        sh.v = verdict(); // violations of a prefix were judged when the prefix was the whole sequence
+                        sh.clear_verdicts(); // violations of a prefix were judged when the prefix was the whole sequence
                     int r = s->apply(seq[i], sh);
                     if (verbose)
                         std::printf("  %zu: %-28s %s  (live %zu)\n", i, s->opname(seq[i]).c_str(), r ? "" : "[not applicable]",
@@ -1876,18 +1888,24 @@ namespace arena
             R.classes.insert(sh.state_key());
             if (sh.v.bad())
             {
-                verdict v1 = sh.v;
-                int     out2;
-                int     r2 = replay(false, &out2); // re-check once
-                if (r2 == 1 && sh.v.bad() && std::string(sh.v.tag) == v1.tag)
+                std::vector<verdict> first = sh.all;
+                int                  out2;
+                int                  r2 = replay(false, &out2); // re-check once
+                for (auto& v1 : first)
                 {
-                    if (v1.harness_problem)
-                        R.herror(std::string(v1.tag) + ": " + v1.detail + " sequence " + seq_str());
+                    bool again = false;
+                    for (auto& v2 : sh.all)
+                        again = again || std::string(v2.tag) == v1.tag;
+                    if (r2 == 1 && again)
+                    {
+                        if (v1.harness_problem)
+                            R.herror(std::string(v1.tag) + ": " + v1.detail + " sequence " + seq_str());
+                        else
+                            R.violation(v1.tag, std::string(s->name()) + " after [" + names() + "]: " + v1.detail, seq_str());
+                    }
                     else
-                        R.violation(v1.tag, std::string(s->name()) + " after [" + names() + "]: " + v1.detail, seq_str());
+                        R.herror(std::string("verdict ") + v1.tag + " not reproducible for sequence " + seq_str());
                 }
-                else
-                    R.herror("verdict not reproducible for sequence " + seq_str());
                 return false; // everything behind a violating state would repeat it
             }
             if (R.samples.size() < 4 && int(seq.size()) == depth && R.evaluations % 97 == 1)
@@ -1948,7 +1966,9 @@ static int arena_main(const std::string& kind, bool thorough, const char* replay
         }
         if (w.sh.v.bad())
         {
-            std::printf("  VIOLATION [%s] %s\n=> violates\n", w.sh.v.tag, w.sh.v.detail.c_str());
+            for (auto& x : w.sh.all)
+                std::printf("  VIOLATION [%s] %s\n", x.tag, x.detail.c_str());
+            std::printf("=> violates\n");
             return 1;
         }
         std::printf("  new bytes checked %lld, freed bytes checked %lld, live bytes checked %lld\n=> ok\n", w.sh.new_bytes,
